@@ -237,13 +237,13 @@ def getProperty : List Layer → List Nat → Bool
 /-! ## MODEL: binary operators -/
 
 /-- calculateBinaryExpression (evaluate.go:52) with the left operand resolved and the right operand as
-    cmplEvaluateNodeBinaryExpression passes it: evaluated but NOT yet resolved (l.153) -/
+    cmplEvaluateNodeBinaryExpression passes it: evaluated but NOT yet resolved (l.153); every arm resolves it first -/
 def binary (E : Env) (op : BOp) (lv : Vl) (right : Rf) (log : List String) : Res Vl :=
   match op with
   | .num .add =>
-    -- l.58: leftValue = toPrimitiveValue(leftValue) comes BEFORE right.resolve() (l.59)
-    (ofR (toPrimitive lv.toOV .none log)).bind fun lp l1 =>
-    (getValue right l1).bind fun rv l2 =>
+    -- l.58: rightValue := right.resolve(); then toPrimitiveValue of the left value, then of the right one
+    (getValue right log).bind fun rv l1 =>
+    (ofR (toPrimitive lv.toOV .none l1)).bind fun lp l2 =>
     (ofR (toPrimitive rv.toOV .none l2)).bind fun rp l3 =>
       if isStrV lp || isStrV rp then .ok (.prim (.str (primToStr E lp ++ primToStr E rp))) l3
       else .ok (.prim (binNum E .add lp rp)) l3
@@ -289,9 +289,11 @@ def eval (E : Env) : Ex → List String → Res Rf
       if boolV lv then .ok (.value lv) l2                                    -- l.146
       else (eval E b l2).bind fun right l3 => (getValue right l3).bind fun rv l4 => .ok (.value rv) l4
   | .cond c t f, log =>
-    -- l.237: the chosen branch is returned as evaluated, WITHOUT resolve
+    -- l.237: the chosen branch, resolved (l.241/243 `.resolve()`)
     (eval E c log).bind fun test l1 => (getValue test l1).bind fun tv l2 =>
-      if boolV tv then eval E t l2 else eval E f l2
+      if boolV tv
+      then (eval E t l2).bind fun r l3 => (getValue r l3).bind fun v l4 => .ok (.value v) l4
+      else (eval E f l2).bind fun r l3 => (getValue r l3).bind fun v l4 => .ok (.value v) l4
 
 /-- the expression in a value context (`__r = <e>`) -/
 def run (E : Env) (e : Ex) : Res Vl := (eval E e []).bind getValue
@@ -429,57 +431,5 @@ def eval (E : Env) : Ex → List String → Res Rf
 def run (E : Env) (e : Ex) : Res Vl := (eval E e []).bind getValue
 
 end Spec
-
-/-! ## Deviation regions (decidable, syntactic) -/
-
-/-- the expression can hand an unresolvable reference to its consumer in otto: an undeclared identifier,
-    possibly behind `?:` (whose model returns the branch unresolved) -/
-def yieldsUnres : Ex → Bool
-  | .leaf .unres => true
-  | .cond _ t f => yieldsUnres t || yieldsUnres f
-  | _ => false
-
-/-- the expression can hand a reference with an observable GetValue to its consumer in otto -/
-def lateRef : Ex → Bool
-  | .leaf (.value _) => false
-  | .leaf _ => true
-  | .cond _ t f => lateRef t || lateRef f
-  | _ => false
-
-/-- the expression can evaluate to an object -/
-def mayObj : Ex → Bool
-  | .leaf (.value (.obj _)) => true
-  | .leaf (.getter _ (.obj _)) => true
-  | .seq _ e => mayObj e
-  | .and a b => mayObj a || mayObj b
-  | .or a b => mayObj a || mayObj b
-  | .cond _ t f => mayObj t || mayObj f
-  | _ => false
-
-def isCond : Ex → Bool
-  | .cond .. => true
-  | _ => false
-
-/-- `cond_reference`: `typeof (c ? undeclared : …)` — otto's `?:` returns the Reference, so typeof sees
-    an unresolvable reference and answers "undefined" where §11.12 step 4/6 (GetValue) throws -/
-def devCond : Ex → Bool
-  | .leaf _ => false
-  | .seq _ e => devCond e
-  | .un op e => (op = .typeof && isCond e && yieldsUnres e) || devCond e
-  | .bin _ a b => devCond a || devCond b
-  | .and a b => devCond a || devCond b
-  | .or a b => devCond a || devCond b
-  | .cond c t f => devCond c || devCond t || devCond f
-
-/-- `plus_getvalue_late`: `a + b` where a may be an object and GetValue(b) is observable — otto converts
-    a (ToPrimitive) BEFORE GetValue of the right operand, §11.6.1 steps 1–6 say after -/
-def devPlus : Ex → Bool
-  | .leaf _ => false
-  | .seq _ e => devPlus e
-  | .un _ e => devPlus e
-  | .bin op a b => (op = .num .add && mayObj a && lateRef b) || devPlus a || devPlus b
-  | .and a b => devPlus a || devPlus b
-  | .or a b => devPlus a || devPlus b
-  | .cond c t f => devPlus c || devPlus t || devPlus f
 
 end OttoVerif.C05.Ops2
